@@ -29,6 +29,19 @@ func (r *RNG) Intn(n int) int {
 	return int(r.Next() % uint64(n))
 }
 func (r *RNG) Bool() bool        { return r.Next()&1 == 1 }
+
+// Perm: a permutation of 0..n-1
+func (r *RNG) Perm(n int) []int {
+	p := make([]int, n)
+	for i := range p {
+		p[i] = i
+	}
+	for i := range p {
+		j := i + r.Intn(n-i)
+		p[i], p[j] = p[j], p[i]
+	}
+	return p
+}
 func (r *RNG) Chance(p int) bool { return r.Intn(100) < p } // p in percent
 func (r *RNG) Pick(l []string) string {
 	return l[r.Intn(len(l))]
